@@ -8,6 +8,9 @@ func libSuite(prop string) Suite {
 		MkExec: func() Executor { return NewImplLib() },
 		Canon:  canonObs,
 		Gen: func(r *Rng, i int, tier string) []Op {
+			if prop == "C02" && i%6 == 5 {
+				return genXffBoundary(r, prop)
+			}
 			g := newLibGen(r, prop, i%5 == 4)
 			steps := 6 + r.Intn(10)
 			if tier == "thorough" {
@@ -17,7 +20,7 @@ func libSuite(prop string) Suite {
 		},
 		Cases: func(tier string) int {
 			if tier == "thorough" {
-				return 12000
+				return 8000
 			}
 			return 600
 		},
